@@ -16,7 +16,7 @@ EXPLANATION = (
     "planners, whose recursion follows AST/plan depth; (K7, information only) FFI entry points and catch_unwind. "
     "A division / remainder trap is discharged only when every path establishes divisor != 0 and (divisor != -1 or dividend != MIN). "
     "K5: the depth limit itself is at most 1000; (K6) every float-to-usize conversion in query-reachable code is bounded at its use or fed only from float fields whose every producer clamps raw values. "
-    "(K8) every cycle of every loop in the five lexers and parsers passes a block that moves the input cursor, calls a function that "
+    "(K5c) inside a recursion cycle of a translator every AST argument of the recursive call comes from the caller's own parameters, never from a by-name lookup in a table the translator owns (a self-referential definition would recurse for ever); (K8) every cycle of every loop in the five lexers and parsers passes a block that moves the input cursor, calls a function that "
     "always consumes input on its success paths (whose error side cannot re-enter the loop), or pulls a finite iterator - otherwise "
     "some input makes the loop spin for ever. "
     "Slice-index bounds, allocation size and progress of a cursor primitive at the end of input are not decided.")
@@ -490,6 +490,48 @@ def run(ctx):
                     "so a long operator or step chain (thousands of `+`, `AND`, `.out()`) overflows the stack"
                     % (name, len(big), sorted(short_id(x).split("::")[-1] for x in big if "{closure" not in x)[:3]),
                where=P.fns[sorted(big)[0]].loc())
+
+    # ------------------------------------------------------------------ K5c recursion that follows a name, not the tree
+    # Recursion over the AST ends because the tree is finite (and K5 bounds its depth). A recursive step whose AST argument
+    # was looked up in a table the translator owns (GraphQL fragments by name, ...) follows a *reference*: a cyclic
+    # definition (`fragment F on T { ...F }`) then recurses until the stack overflows. Every call edge inside a recursion
+    # cycle of a translator must take its AST arguments from its own parameters, unless the cycle passes a depth check.
+    nk5c = 0
+    for name, pre in stages.items():
+        if not name.endswith("_translator"):
+            continue
+        ids = {f.id for f in P.fns.values() if f.id.startswith(pre) or ("<" + pre) in f.id}
+        own_types = {a.split("::")[-1] for a in P.adts if a.startswith(pre)}
+        checks = {fid for fid in ids if _is_depth_check(P, P.fns[fid])}
+        guarded = {fid for fid in ids if any(callee_name(t) in checks for bi, t in P.fns[fid].calls())}
+        E = P.edges()
+        cyc = [s_ for s_ in _sccs(ids - guarded - checks, E) if len(s_) > 1 or any(x in E.get(x, ()) for x in s_)]
+        for scc in cyc:
+            sset = set(scc)
+            for fid in sorted(scc):
+                f = P.fns[fid]
+                fx = None
+                k = 0
+                for bi, t in f.calls():
+                    if not ((set(P.call_targets(t)) | {callee_name(t)}) & sset):
+                        continue
+                    nk5c += 1
+                    fx = fx or FlowCx(P, f)
+                    bad = None
+                    for i, a in enumerate(t["args"][1:], 1):
+                        aty = f.types[t["aty"][i]] if i < len(t.get("aty", [])) else ""
+                        if "::ast::" not in aty:
+                            continue
+                        tg = fx.tags(a)
+                        hit = [x for x in tg if x.startswith("cell:") and x[5:].split(".")[0] in own_types]
+                        if hit:
+                            bad = (i, hit[0][5:])
+                    ctx.ob("K5c", "%s#%s->%s[%d]" % (name, fkey(f).split("::")[-1], callee_name(t).split("::")[-1], k), bad is None,
+                           what="%s makes a recursive call whose AST argument comes from the translator's own table %s (a lookup by "
+                                "name), not from the node it was given: a definition that refers to itself recurses until the stack "
+                                "overflows and the process aborts" % (short_id(f.id), bad[1] if bad else ""), where=f.loc(t["line"]))
+                    k += 1
+    ctx.floor("K5c", nk5c, 20, "call edges inside recursion cycles of the translators")
 
     # ------------------------------------------------------------------ K7 FFI
     ffi = [f for f in P.fns.values() if f.krate == "grafeo_c" and f.abi_c and f.kind != "closure"]
